@@ -137,7 +137,7 @@ pub fn run_c22b(ctx: &mut Ctx) {
             let mut res: Vec<Value> = ctx.corpus("C22").into_iter()
                 .filter(|v| v.get("scope").is_some()).collect();
             res.extend(systematic());
-            let n = ctx.budget(600, 20_000);
+            let n = ctx.budget(600, 10_000);
             let mut rng = ctx.rng.fork();
             for i in 0..n {
                 let ill = i % 8 == 7;
@@ -216,7 +216,7 @@ pub fn run_c22s(ctx: &mut Ctx) {
         backslashes, control characters, non-ASCII), all optional fields both ways; rendered by \
         GET /api/v1/status through the real dispatcher; non-trivial = a hostile character \
         reaches the document; distinct by (sizes, hostile characters) signature".into();
-    for state in states(ctx, 300, 10_000) {
+    for state in states(ctx, 300, 3_000) {
         let (status, text) = fetch(&state, "/api/v1/status");
         if status != 200 {
             ctx.oracle_fail("status-not-200", &format!("status {status}"), &state, json!(text));
@@ -287,7 +287,7 @@ pub fn run_c22m(ctx: &mut Ctx) {
         exposition-format parser (expfmt rules incl. one HELP/TYPE per metric) as oracle; the \
         parsed entries are re-rendered by the model; non-trivial = a hostile character in a \
         TAL name or repository URI; distinct by (sizes, hostile characters) signature".into();
-    for state in states(ctx, 300, 10_000) {
+    for state in states(ctx, 300, 3_000) {
         let (status, text) = fetch(&state, "/metrics");
         if status != 200 {
             ctx.oracle_fail("metrics-not-200", &format!("status {status}"), &state, json!(text));
